@@ -59,7 +59,7 @@ theorem toNat_eq_zero {n : Nat} (a : BitVec n) (h : a = 0) : a.toNat = 0 := by r
 
 /-- unfold the generated constants to literals, then decide the bit-vector goal -/
 macro "bits" : tactic =>
-  `(tactic| (simp only [Gen.pessConsts, Gen.optConsts, zext, trunc] at *; (try unfold Word at *); bv_decide))
+  `(tactic| ((try simp only [Gen.pessConsts, Gen.optConsts, zext, trunc] at *); (try unfold Word at *); bv_decide))
 
 -- ---------------------------------------------------------------- PessimisticLock
 
@@ -95,6 +95,15 @@ theorem k_x : C.kXLock.getLsbD 63 = true ∧ C.kXLock.getLsbD 62 = false ∧
 theorem upg (w : Word) (h : (w == C.kSIXLock) = true) : w.extractLsb' 0 62 = 0 := by bits
 theorem prep (w : Word) (h1 : ((w &&& C.kXLock) == C.kNoLocks) = true) (h2 : (w != 0) = false) :
     w.getLsbD 63 = false ∧ w.getLsbD 62 = false ∧ w.extractLsb' 0 62 = 0 := by bits
+theorem gS_c (w : Word) (h : w.getLsbD 63 = false) : ((w &&& C.kXLock) == C.kNoLocks) = true := by bits
+theorem gSIX_c (w : Word) (h : w.getLsbD 63 = false) (h2 : w.getLsbD 62 = false) :
+    ((w &&& C.kXMask) == C.kNoLocks) = true := by bits
+theorem gX_c (w : Word) (h : w.getLsbD 63 = false) (h2 : w.getLsbD 62 = false) (h3 : w.extractLsb' 0 62 = 0) :
+    (w == C.kNoLocks) = true := by bits
+theorem upgG_c (w : Word) (h : w.getLsbD 63 = false) (h2 : w.getLsbD 62 = true) (h3 : w.extractLsb' 0 62 = 0) :
+    (w == C.kSIXLock) = true := by bits
+theorem any_iff (w : Word) (h : w.getLsbD 63 = false) :
+    ((w != 0) = false) ↔ (w.getLsbD 62 = false ∧ w.extractLsb' 0 62 = 0) := by bits
 end PessBits
 
 /-- **Tie G, PessimisticLock**: the model's expressions at the regenerated constants meet the
@@ -228,7 +237,32 @@ theorem pess_specs (r : Nat) : Specs (Gen.pess r) pessDecoder where
     · show (BitVec.extractLsb' _ _ _).toNat = _
       rw [hb.2.2]; exact toNat_succ_of_lt _ h
     · rfl
-
+  gS_c := fun w h => by
+    simp only [pessDecoder, Gen.pess, pessParams] at *; exact PessBits.gS_c w h
+  gSIX_c := fun w h h2 => by
+    simp only [pessDecoder, Gen.pess, pessParams] at *; exact PessBits.gSIX_c w h h2
+  gX_c := fun w h h2 h3 => by
+    simp only [pessDecoder, Gen.pess, pessParams] at *
+    exact PessBits.gX_c w h h2 (BitVec.eq_of_toNat_eq (by simpa using h3))
+  upgG_c := fun w h h2 h3 => by
+    simp only [pessDecoder, Gen.pess, pessParams] at *
+    exact PessBits.upgG_c w h h2 (BitVec.eq_of_toNat_eq (by simpa using h3))
+  noX_iff := fun w => by
+    simp only [pessDecoder, Gen.pess, pessParams]
+    exact ⟨PessBits.gS w, PessBits.gS_c w⟩
+  verOf_eq := fun _ => rfl
+  castVer_eq := fun _ => rfl
+  tryNe := fun m w v h => by simp [Gen.pess, pessParams] at h
+  anyLock_iff := fun w h => by
+    simp only [pessDecoder, Gen.pess, pessParams] at *
+    rw [PessBits.any_iff w h]
+    constructor
+    · intro ⟨a, b⟩; exact ⟨a, toNat_eq_zero _ b⟩
+    · intro ⟨a, b⟩; exact ⟨a, BitVec.eq_of_toNat_eq (by simpa using b)⟩
+  verIn_idem := fun _ => rfl
+  tgS_c := fun _ _ => Or.inr (fun _ => rfl)
+  tgSIX_c := fun _ _ _ => Or.inr (fun _ => rfl)
+  tgX_c := fun _ _ _ _ => Or.inr (fun _ => rfl)
 
 -- ---------------------------------------------------------------- OptimisticLock
 
@@ -275,6 +309,20 @@ theorem upg_u (w : Word) (hx : w.getLsbD 63 = false) (hsix : w.getLsbD 62 = true
 theorem prep (w : Word) (h1 : ((w &&& C.kXLock) == C.kNoLocks) = true)
     (h2 : ((w &&& C.kAllLockMask) != 0) = false) :
     w.getLsbD 63 = false ∧ w.getLsbD 62 = false ∧ w.extractLsb' 32 30 = 0 := by bits
+theorem gS_c (w : Word) (h : w.getLsbD 63 = false) : ((w &&& C.kXLock) == C.kNoLocks) = true := by bits
+theorem gSIX_c (w : Word) (h : w.getLsbD 63 = false) (h2 : w.getLsbD 62 = false) :
+    ((w &&& C.kXMask) == C.kNoLocks) = true := by bits
+theorem gX_c (w : Word) (h : w.getLsbD 63 = false) (h2 : w.getLsbD 62 = false) (h3 : w.extractLsb' 32 30 = 0) :
+    ((w &&& C.kAllLockMask) == C.kNoLocks) = true := by bits
+theorem upgG_c (w : Word) (h3 : w.extractLsb' 32 30 = 0) : ((w &&& C.kSMask) == C.kNoLocks) = true := by bits
+theorem any_iff (w : Word) (h : w.getLsbD 63 = false) :
+    (((w &&& C.kAllLockMask) != 0) = false) ↔ (w.getLsbD 62 = false ∧ w.extractLsb' 32 30 = 0) := by bits
+theorem ver_of (w : Word) : trunc (w &&& C.kVersionMask) = w.extractLsb' 0 32 := by bits
+theorem cast_ver (w : Word) : trunc w = w.extractLsb' 0 32 := by bits
+theorem try_ne (w : Word) (v : BitVec 32) :
+    (((w &&& C.kVersionMask) != zext v) = true) ↔ w.extractLsb' 0 32 ≠ v := by bits
+theorem try_ne_x (w : Word) (v : BitVec 32) (h : w.getLsbD 63 = false) :
+    (((w &&& C.kXAndVersionMask) != zext v) = true) ↔ w.extractLsb' 0 32 ≠ v := by bits
 end OptBits
 
 /-- **Tie G, OptimisticLock**. -/
@@ -409,5 +457,41 @@ theorem opt_specs (r : Nat) : Specs (Gen.opt r) optDecoder where
     · show (BitVec.extractLsb' _ _ _).toNat = _
       rw [hb.2.2.1]; exact toNat_succ_of_lt _ h
     · exact hb.2.2.2
+  gS_c := fun w h => by
+    simp only [optDecoder, Gen.opt, optParams] at *; exact OptBits.gS_c w h
+  gSIX_c := fun w h h2 => by
+    simp only [optDecoder, Gen.opt, optParams] at *; exact OptBits.gSIX_c w h h2
+  gX_c := fun w h h2 h3 => by
+    simp only [optDecoder, Gen.opt, optParams] at *
+    exact OptBits.gX_c w h h2 (BitVec.eq_of_toNat_eq (by simpa using h3))
+  upgG_c := fun w _ _ h3 => by
+    simp only [optDecoder, Gen.opt, optParams] at *
+    exact OptBits.upgG_c w (BitVec.eq_of_toNat_eq (by simpa using h3))
+  noX_iff := fun w => by
+    simp only [optDecoder, Gen.opt, optParams]
+    exact ⟨OptBits.gS w, OptBits.gS_c w⟩
+  verOf_eq := fun w => by
+    simp only [optDecoder, Gen.opt, optParams]; exact OptBits.ver_of w
+  castVer_eq := fun w => by
+    simp only [optDecoder, Gen.opt, optParams]; exact OptBits.cast_ver w
+  tryNe := fun m w v h => by
+    cases m <;> simp only [optDecoder, Gen.opt, optParams] at *
+    · exact OptBits.try_ne w v
+    · exact OptBits.try_ne w v
+    · exact OptBits.try_ne_x w v (OptBits.gX w h).1
+  anyLock_iff := fun w h => by
+    simp only [optDecoder, Gen.opt, optParams] at *
+    rw [OptBits.any_iff w h]
+    constructor
+    · intro ⟨a, b⟩; exact ⟨a, toNat_eq_zero _ b⟩
+    · intro ⟨a, b⟩; exact ⟨a, BitVec.eq_of_toNat_eq (by simpa using b)⟩
+  verIn_idem := fun _ => rfl
+  tgS_c := fun w h => Or.inl (by
+    simp only [optDecoder, Gen.opt, optParams] at *; exact OptBits.gS_c w h)
+  tgSIX_c := fun w h h2 => Or.inl (by
+    simp only [optDecoder, Gen.opt, optParams] at *; exact OptBits.gSIX_c w h h2)
+  tgX_c := fun w h h2 h3 => Or.inl (by
+    simp only [optDecoder, Gen.opt, optParams] at *
+    exact OptBits.gX_c w h h2 (BitVec.eq_of_toNat_eq (by simpa using h3)))
 
 end CppUtil.WLock
